@@ -197,8 +197,11 @@ def displayGraph : Nat → List Nat → Store Bool → State → State
 def totalEdges (g : State) : Nat :=
   (List.range g.nextId).foldl (fun acc i => acc + (g.node i).traced.length) 0
 
-/-- recursion depth available to every walk: one frame per object plus the returning call -/
-def walkFuel (g : State) : Nat := g.nextId + 2
+/-- recursion depth available to every walk.  A walk that flips one flag per object nests at most
+    one frame per object plus the returning call; `scan` can nest twice that: a chain of objects it
+    has just whitened may be walked again by `scan_black` while the `scan` frames are still open
+    (cyclic graphs), so the bound is two frames per object. -/
+def walkFuel (g : State) : Nat := 2 * g.nextId + 3
 
 /-- `mark_roots` -/
 def markRoots (g : State) : State :=
